@@ -133,6 +133,7 @@ fn c06_plan(cfg: &Cfg) -> UnaryPlan {
 }
 
 pub fn run(cfg: &Cfg) -> Option<(Part, Value, bool)> {
+    ROOT_FINDINGS_COUNT.store(cfg.prop == "C03", std::sync::atomic::Ordering::Relaxed);
     match cfg.prop.as_str() {
         "C01" => Some(arith::run_bin_plan(cfg, &c01_plan(cfg))),
         "C02" => Some(arith::run_bin_plan(cfg, &c02_plan(cfg))),
@@ -141,6 +142,17 @@ pub fn run(cfg: &Cfg) -> Option<(Part, Value, bool)> {
         "C06" => Some(arith::run_unary_plan(cfg, &c06_plan(cfg))),
         "C03" => Some(crate::hist::run_c03(cfg)),
         "C07" => Some(crate::hist::run_c07(cfg)),
+        "C08" => Some(crate::convs::run_c08(cfg)),
+        "C09" => Some(crate::convs::run_c09(cfg)),
+        "C10" => Some(crate::convs::run_c10(cfg)),
+        "C11" => Some(crate::convs2::run_c11(cfg)),
+        "C12" => Some(crate::convs2::run_c12(cfg)),
+        "C13" => Some(crate::convs2::run_c13(cfg)),
+        "C14" => Some(crate::convs2::run_c14(cfg)),
+        "C15" => Some(crate::convs2::run_c15(cfg)),
+        "C16" => Some(crate::convs::run_c16(cfg)),
+        "C17" => Some(crate::iters::run_c17(cfg)),
+        "C19" => Some(crate::overflow::run_c19(cfg)),
         "C18" => Some(crate::hist::run_c18(cfg)),
         "C20" => Some(arith::run_forms_plan(cfg, if cfg.quick() { 4 } else { 6 }, true, &[K::F64x2, K::D, K::A])),
         _ => None,
@@ -166,6 +178,18 @@ pub fn replay(j: &Value, profile: &'static str, dbg: bool) -> i32 {
     } else if check == "forms" {
         match arith::replay_forms(&cfg, root, &ops) {
             Ok(p) => p,
+            Err(e) => {
+                eprintln!("{}", e);
+                return 2;
+            }
+        }
+    } else if let Some(r) = crate::convs::run_cmd(check, dbg).or_else(|| crate::iters::run_cmd(check)).or_else(|| crate::overflow::run_cmd(check, dbg)) {
+        match r {
+            Ok(ms) => {
+                let mut p = Part::new();
+                crate::convs::record(&mut p, "replay", "-", "-", vec![], &|| check.to_string(), ms);
+                p
+            }
             Err(e) => {
                 eprintln!("{}", e);
                 return 2;
